@@ -128,18 +128,20 @@ ADDENDA = {
  "C03": (" SPLIT-COMMIT: after bucket_split/BTree_split succeeded no return is reachable in the caller before the sibling is stored as a child and len is increased; the split functions have no failure exit after their first store into the split node or the sibling's len.",
          "; path rule between split success and child store"),
  "C04": (" A new helper that leaves its node parameter unregistered is followed down chains of such helpers and reported at the innermost one when some caller does not register (void helpers included: falling off the end of a body is a return).", ""),
- "C06": (" The class swap is decided on facts keyed on attribute names (_BTree_reduce_as set unconditionally for the four kinds; __name__ and __qualname__ renamed together; __reduce__ returns the class taken from the __class__ property, which returns _BTree_reduce_as).", ""),
+ "C06": (" The class swap is decided on facts keyed on attribute names (_BTree_reduce_as set unconditionally for the four kinds; __name__ and __qualname__ renamed together; __reduce__ returns the class taken from the __class__ property, which returns _BTree_reduce_as). The layout facts of the five C codecs and six Python codecs come from role-stream abstract interpreters (loops peeled and run generically with solved induction variables, helpers inlined): which node slot each tuple slot carries and vice versa, as slot families over the iteration index, compared exactly with one specification table.",
+         "; abstract interpretation of the codecs into slot families"),
+ "C08": (" A function whose whole body is the jar/oid/serial-guarded readCurrent of its parameter counts as the registration when called on self before the descent, and may be called from writing methods only.", ""),
  "C07": (" The Python merge is interpreted by a small interpreter with frames, function values (local, module-level and passed-in helpers), loops over literal tuples and list sinks; the successor-carried clause also rejects any state loader / clear / rebinding of the result after the link was carried.", ""),
  "C09": (" SLOT-SIG: every function cast into a type-object slot returns the class of value (void / pointer / integer width) the slot's function-pointer type promises - a narrower integer makes the error return unrecognisable (SystemError in place of the function's exception, where the Python class raises the original one). PY-TAINT also requires the absence handler of a read to enclose the conversion only.",
          "; prototype agreement of slot functions"),
  "C10": (" INPLACE-MONOTONE: no loop of an in-place operator both adds to and removes from the container (per-occurrence toggling; C x22 and Python). INPLACE-OPERAND: the Python in-place operators consume their operand exactly once and never through a membership test. INPLACE-REPLACE: the rebuild step of C &= dominates every success result. ALIAS-GUARD is required only where a loop over the operand modifies self in the same pass.",
          "; loop-effect and dominator rules for the in-place operators"),
- "C13": (" *AndOverflow converters are modelled by their out-parameter (both signs of the indicator must be excluded, or the negative one by a `result < 0` rejection); the 64-bit helpers are interpreted per argument class including single-digit (compact) ints.", ""),
+ "C13": (" *AndOverflow converters are modelled by their out-parameter (both signs of the indicator must be excluded, or the negative one by a `result < 0` rejection); the 64-bit helpers are interpreted per argument class including single-digit (compact) ints; conversions factored into functions are followed (stores through an out-parameter; functions returning a converter result with a success flag).", ""),
  "C14": (" CLEAR-THEN-FILL: no operation empties its own container and then rebuilds it through calls from which a key comparison is reachable (object-key units; known finding: C &=). PY-CMP-SWALLOW: no Python try whose handler answers or raises another class encloses a call into the comparing layer.",
          "; call-graph reach after a clearing call; Python handler-scope rule"),
  "C15": (" BTreeItems_seek itself is checked to commit a finger position only after testing 0 <= offset < len against the current len of that very bucket, the failing side unable to reach the commit.", ""),
- "C16": (" RELEASE-ATTACHED: a key/value/separator/child/successor slot of a node is never released in place, and a reference loaded from such a slot is released only after the slot was overwritten, shifted over or cut off by a length store (releasing runs arbitrary code: finalizers, weakref callbacks). SETITEM-FRESH: the unchecked *_SET_ITEM macros are applied only to containers created empty on that path (reaching definitions). SPLIT-COMMIT: a split function has no failure exit once the sibling's len is set.",
-         "; slot detach-before-release typestate; reaching-definitions rule for SET_ITEM"),
+ "C16": (" RELEASE-ATTACHED: a key/value/separator/child/successor slot of a node is never released in place, and a reference loaded from such a slot is released only after the slot was overwritten, shifted over or cut off by a length store (releasing runs arbitrary code: finalizers, weakref callbacks). SETITEM-FRESH: the unchecked *_SET_ITEM macros are applied only to containers created empty on that path (reaching definitions). SPLIT-COMMIT: a split function has no failure exit once the sibling's len is set. NULL-RESULT: the result of every repository function that has a `return NULL` path (inferred set) is tested before it is dereferenced or passed to a NULL-intolerant API, on every path.",
+         "; slot detach-before-release typestate; reaching-definitions rule for SET_ITEM; may-return-NULL inference + unchecked-result dataflow"),
  "C17": (" EXC-PENDING: no success return with the wrapper's MemoryError pending. CLEAR-THEN-FILL (allocation flavour): no operation empties its own container and then rebuilds it through allocating calls (known finding: C &=). SPLIT-COMMIT as in C03. FREE-DISC understands the detach-then-free idiom and store-back aliases.",
          "; call-graph reach after a clearing call; split commit rule"),
 }
